@@ -290,6 +290,50 @@ ODD = (
 )
 
 
+def renamed_set(R):
+    """The agent confirms a SET under another name than the one requested (a lenient agent
+    that reports the instance `x.0` for a request naming `x`; same number of bindings):
+    the wrapper's result is still made of built-in types only - its KEYS included - and
+    equals the pythonised raw result."""
+    base = (1, 3, 6, 1, 4, 1, 9, 6)
+    db = {base + (i, 0): ("int", i) for i in (1, 2, 3)}
+
+    def rename(req, resp):
+        if req["type"] != 0xA3:
+            return resp
+        out = dict(resp)
+        out["varbinds"] = [(tuple(o) + (0,) if j % 2 == 0 else (1, 3, 6, 1, 4, 1, 9, 7, j), v) for j, (o, v) in enumerate(resp["varbinds"])]
+        return out
+
+    for level in ("v1", "v2c", "v3-md5-priv"):
+        for n in (1, 2, 3):
+            pairs = [(base + (i,), ("int", 10 * i)) if i % 2 else (base + (i, 0), ("str", b"s")) for i in range(1, n + 1)]
+            wp, wr = World(level, db), World(level, db)
+            for w in (wp, wr):
+                w.prime()
+                w.agent.any_set = True
+                w.agent.pdu_hook = rename
+            rp = rig.outcome(lambda: drive(wp.py.multiset({oid_s(o): rig.from_tuple(v) for o, v in pairs})))
+            rr = rig.outcome(lambda: drive(wr.client.multiset({OID(o): rig.from_tuple(v) for o, v in pairs})))
+            R.case(("c15-renamed-set", level, n, rp[0], rr[0]), rp[0] == "ok")
+            R.mon["renamed_set_cases"] += 1
+            if rp[0] != "ok":
+                if rr[0] == "ok":
+                    R.violation({"level": level, "op": "renamed-set", "db": None, "args": None}, "raw multiset returned %r, the wrapper raised %r" % (rr[1], rp[1]), None)
+                continue
+            problems, leaves = [], []
+            typewalk(rp[1], "multiset", problems, leaves)
+            if problems:
+                R.violation({"level": level, "op": "renamed-set", "db": None, "args": None}, "the agent confirmed a SET under another name: %s" % "; ".join(problems)[:300], None)
+                return
+            if rr[0] == "ok":
+                want = {oid_s(oid_t(k)): rig.pythonized(to_tuple(v)) for k, v in rr[1].items()}
+                if dict(rp[1]) != want:
+                    R.violation({"level": level, "op": "renamed-set", "db": None, "args": None}, "wrapper multiset returned %r, pythonised raw result is %r" % (rp[1], want), None)
+                    return
+            R.mon["renamed_set_ok"] += 1
+
+
 def odd_values(R):
     """Values whose content does not suit their type (a sloppy agent): the wrapper may
     refuse them, but whatever it RETURNS consists of built-in types only - in strict and
@@ -333,6 +377,7 @@ def odd_values(R):
 def run(R):
     if R.shard == 1 % R.nshards:
         odd_values(R)
+        renamed_set(R)
     if R.shard == 2 % R.nshards:
         # a table of more than 2000 rows (and a walk of more than 4000 instances)
         table = (1, 3, 6, 1, 4, 1, 4242, 9)
@@ -345,6 +390,25 @@ def run(R):
         for op, args in (("bulktable", {"table": table, "bulk": 50}), ("table", {"entry": entry}), ("bulkwalk", {"roots": [entry + (1,), entry + (2,)], "bulk": 40})):
             run_case(R, "v2c", op, big, args)
             R.mon["big_table_cases"] += 1
+    if R.shard == 3 % R.nshards:
+        if True:
+            # ONE wrapper object that has handed out more than 65536 distinct OIDs
+            many = {(1, 3, 6, 1, 4, 1, 4242, 11, 1, c, r): ("int", r) for c in (1, 2) for r in range(1, 36001)}
+            many[(1, 3, 6, 1, 4, 1, 4242, 12, 1, 0)] = ("str", b"afterwards")
+            w = World("v2c", many)
+            w.seam.budget = 10**6
+            seen = 0
+            problems = []
+            for roots, bulk in (([(1, 3, 6, 1, 4, 1, 4242, 11, 1, 1)], 100), ([(1, 3, 6, 1, 4, 1, 4242, 11, 1, 2)], 100), ([(1, 3, 6, 1, 4, 1, 4242, 12)], 5)):
+                for vb in drive_agen(w.py.bulkwalk([oid_s(r) for r in roots], bulk_size=bulk), limit=40000):
+                    seen += 1
+                    if type(vb.oid) is not str or type(vb.value) not in (int, bytes):
+                        problems.append("item %d: oid %r (%s), value %r (%s)" % (seen, vb.oid, type(vb.oid).__name__, vb.value, type(vb.value).__name__))
+                        break
+            R.case(("c15-many-oids", seen), True)
+            R.mon["oids_through_one_wrapper"] += seen
+            if problems or seen != 72001:
+                R.violation({"level": "v2c", "op": "many-oids", "db": None, "args": None}, "one wrapper object after %d distinct OIDs: %s" % (seen, problems[:1] or "expected 72001 items"), None)
     n = N_CASES[R.tier]
     levels = rig.LEVEL_CYCLE_ALL
     for i in range(n):
@@ -369,6 +433,9 @@ def run(R):
 def replay(R, v):
     if str(v["case"].get("op", "")).startswith("odd:"):
         odd_values(R)
+        return
+    if v["case"].get("op") == "renamed-set":
+        renamed_set(R)
         return
     from .walkcommon import dec_db
 
